@@ -516,3 +516,33 @@ func varDefinedByUp(fn *FuncNode, o types.Object) (ast.Expr, *ast.AssignStmt, bo
 	}
 	return nil, nil, false
 }
+
+func disjuncts(e ast.Expr) []ast.Expr {
+	e = ast.Unparen(e)
+	if b, ok := e.(*ast.BinaryExpr); ok && b.Op == token.LOR {
+		return append(disjuncts(b.X), disjuncts(b.Y)...)
+	}
+	return []ast.Expr{e}
+}
+
+// TrueEdgesOfDisjunctionOf returns the true edges of conditions that are disjunctions
+// made only of atoms accepted by atomOK: taking the edge proves one of those atoms.
+func (c *FuncCFG) TrueEdgesOfDisjunctionOf(atomOK func(ast.Expr) bool) map[edge]bool {
+	out := map[edge]bool{}
+	for _, b := range c.G.Blocks {
+		cond := Cond(b)
+		if cond == nil {
+			continue
+		}
+		all := true
+		for _, a := range disjuncts(cond) {
+			if !atomOK(a) {
+				all = false
+			}
+		}
+		if all {
+			out[edge{b, 0}] = true
+		}
+	}
+	return out
+}
